@@ -156,3 +156,8 @@ def b_native(B):
         x[0, 25] = 10
         s, m = V.saturation(x, 1.0, v_per_sec=1e9, proportion=0.5, mute_window_samples=M)
         B.case(("even_width", M), bool(s[25]) and m[25] == 0, detail=f"isolated flagged sample, width {M}: mute={m[25]:.4f} != 0", inputs={"kind": "even_width", "M": M})
+
+
+# ----------------------------------------------------------------------------- contracts of dependencies this property rests on (re-checked here)
+from pyvc.api import depends  # noqa: E402
+depends(PROPERTY, "C09", ["derived_scalars"])      # Reader.range_volts: full-scale voltage per channel
